@@ -89,7 +89,7 @@ m = {
         'guard': 'john_yu_sm9_core_verif',
         'enable': 'executor/.cargo/config.toml sets rustflags = ["--cfg", "john_yu_sm9_core_verif"]; sanitizer builds pass the same --cfg through RUSTFLAGS',
         'baseline_off_cmd': 'cd /repo && cargo test --workspace --no-fail-fast --offline',
-        'source_commits': ['55aa66b', '5810016'],
+        'source_commits': ['55aa66b', '6be3d24'],
         'add_only': True,
     },
     'engines': [{
